@@ -84,6 +84,12 @@ inductive Obj where
   | comp (o : CompObj Rat)
   /-- a calibrated table: the state and the name of the table holding the uncalibrated efficiencies (read at every query) -/
   | calib (o : CalibObj Rat) (u : Bin → Rat)
+  /-- a `BinNormalisationFromProjData` object through constructors / `parse` / `set_up` -/
+  | fpd (o : FpdObj Rat)
+  /-- a `BinNormalisationFromAttenuationImage` object (images are named by the harness) and the error bound of the last `set_up` -/
+  | atten (o : AttenObj String Rat) (rel : Bin → Rat)
+  /-- a `ChainedBinNormalisation` object; the members are named, the names are resolved in the current `cfg` block -/
+  | chain (o : ChainObj String)
 
 structure St where
   tabs : Std.HashMap String Tab := {}
@@ -134,9 +140,15 @@ structure View where
 def viewOfNorm (n : Norm Rat) : View :=
   { triv := some (isTrivial tolD n), reported := reported n, undo := undo expQ n, apply := apply expQ floorF n, rel := relBound n }
 
-def viewOfObj : Obj → View
+def viewOfObj (norms : Std.HashMap String (Norm Rat)) : Obj → View
   | .comp o => { triv := o.isTrivial, reported := o.reported, undo := o.undo, apply := o.apply, rel := fun _ => 20 * u24 }
   | .calib o u => { triv := some false, reported := o.reported u, undo := o.undo u, apply := o.apply floorF u, rel := fun _ => 12 * u24 }
+  | .fpd o => { triv := some false, reported := fun _ => none, undo := o.undo expQ, apply := o.apply expQ floorF, rel := fun _ => 4 * u24 }
+  | .atten o rel => { triv := some false, reported := fun _ => none, undo := o.undo expQ, apply := o.apply expQ, rel := rel }
+  | .chain o =>
+    let n := o.norm fun m => (norms.get? m).getD .null
+    if o.membersSetUp then viewOfNorm n
+    else { triv := some false, reported := fun _ => none, undo := fun _ _ => none, apply := fun _ _ => none, rel := fun _ => 0 }
 
 /-! ### the analytic attenuation expectation in binary64 (`acfBox` at `K = Float`) -/
 
@@ -171,7 +183,19 @@ def stepLine (s : St) (line : String) : St × String :=
   let view? (id : String) : Option View :=
     match s.norms.get? id with
     | some n => some (viewOfNorm n)
-    | none => (s.objs.get? id).map viewOfObj
+    | none => (s.objs.get? id).map (viewOfObj s.norms)
+  -- the two members of a chain: a plain chain of this `cfg` block, or a chain object with a history (members resolved here)
+  let chain? (id : String) : Option (Norm Rat × Norm Rat) :=
+    match s.norms.get? id with
+    | some (.chained n1 n2) => some (n1, n2)
+    | some _ => none
+    | none =>
+      match s.objs.get? id with
+      | some (.chain o) =>
+        match o.norm (K := Rat) fun m => (s.norms.get? m).getD .null with
+        | .chained n1 n2 => some (n1, n2)
+        | _ => none
+      | _ => none
   match toks with
   | "cfg" :: _ => ({ objs := s.objs }, "ok")
   | "tab" :: name :: seg :: view :: ax :: tof :: tmin :: vals =>
@@ -209,7 +233,61 @@ def stepLine (s : St) (line : String) : St × String :=
     | ["setup", "calib", t], some (.calib o _) => put (.calib o.setUp (s.tab t))
     | ["usable"], some o =>
       -- do `apply`/`undo` get past `check()` (the set-up state only)?
-      (s, if (match o with | .calib c _ => c.setUpDone | .comp c => c.setUpDone) then "ok" else "err")
+      (s, if (match o with
+              | .calib c _ => c.setUpDone
+              | .comp c => c.setUpDone
+              | .fpd c => c.setUpDone && c.factors.isSome
+              | .atten c _ => c.setUpDone
+              | .chain c => c.membersSetUp) then "ok" else "err")
+    -- ---- one object through constructors / parse / set_up
+    | ["newfpd"], _ => put (.fpd FpdObj.new)
+    | ["ctorfpd", t, tof], _ => put (.fpd (FpdObj.ofData (s.tab t) (B tof)))
+    | ["parse", "fpd", t, tof], some (.fpd o) =>
+      (match o.parse (if t == "-" then none else some (s.tab t, B tof)) with
+       | some o' => put (.fpd o')
+       | none => (s, "err"))
+    | ["setup", "fpd", nm, dm, a1, a2, a3, a4, a5, c1, c2, c3, c4, c5], some (.fpd o) =>
+      (match o.setUp (fromProjDataSetUpTof (I nm) (I dm) ⟨B a1, B a2, B a3, B a4, B a5⟩ ⟨B c1, B c2, B c3, B c4, B c5⟩) with
+       | some (o', acc) => ({ s with objs := s.objs.insert id (.fpd o') }, if acc then "ok" else "fail")
+       | none => (s, "err"))
+    | ["newatten"], _ => put (.atten AttenObj.new fun _ => 0)
+    | ["ctoratten", how, img], _ =>
+      (match (if how == "file" then AttenObj.ofFile img else AttenObj.ofImage img : Option (AttenObj String Rat)) with
+       | some o => put (.atten o fun _ => 0)
+       | none => (s, "err"))
+    | ["parse", "atten", img], some (.atten o rel) =>
+      (match o.postProcessing (if img == "-" then none else some img) with
+       | some o' => put (.atten o' rel)
+       | none => (s, "err"))
+    | "setup" :: "atten" :: _ntof :: mash :: imgs, some (.atten o _) =>
+      -- imgs: triples <image name> <x voxel size> <row table>
+      let rec triples : List String → List (String × Rat × String)
+        | n :: vx :: r :: rest => (n, Q vx, r) :: triples rest
+        | _ => []
+      let tr := triples imgs
+      let images (n : String) : Rat × (Bin → List (Rat × Rat)) :=
+        match tr.find? (·.1 == n) with
+        | some (_, vx, r) => (vx, s.rowTab r)
+        | none => (0, fun _ => [])
+      (match o.setUp (I mash) images with
+       | some o' =>
+         let rel : Bin → Rat :=
+           match o'.img with
+           | some (n, k) => fun b =>
+             let (vx, rows) := images n
+             let r := rows b
+             let M := r.foldl (fun acc p => acc + qabs (p.1 * rescaled vx k p.2)) 0
+             16 * (((r.length + 3 : Nat) : Rat) * M + 1) * u24
+           | none => fun _ => 0
+         put (.atten o' rel)
+       | none => (s, "err"))
+    | ["newchain"], _ => put (.chain ChainObj.new)
+    | ["parse", "chain", a, b, c1, c2], some (.chain o) =>
+      let mem (t : String) : MemberKey String := if t == "-" then none else if t == "null" then some none else some (some t)
+      (match o.parse (mem a) (mem b) (chainCtorOk (Q c1) (Q c2)) with
+       | some o' => put (.chain o')
+       | none => (s, "err"))
+    | ["setup", "chain"], some (.chain o) => put (.chain o.setUp)
     | _, _ => (s, "bad-op")
   | ["acf", mu, x0, x1, y0, y1, px, py, pz, qx, qy, qz] =>
     (s, s!"{acfBoxF (Q mu) (Q px) (Q py) (Q pz) (Q qx) (Q qy) (Q qz) (Q x0) (Q x1) (Q y0) (Q y1)}@{(1 : Rat) / 5000}")
@@ -262,12 +340,16 @@ def stepLine (s : St) (line : String) : St × String :=
     match parseUse 64 e with
     | some (t, []) => (s, if useWhole (B ex) t then "ok" else "err")
     | _ => (s, "bad-op")
-  | ["setup", "atten", ntof] => (s, if fromAttenSetUp (I ntof) then "ok" else "err")
+  | ["setup", "fpdtof", nm, dm, a1, a2, a3, a4, a5, c1, c2, c3, c4, c5] =>
+    (s, if fromProjDataSetUpTof (I nm) (I dm) ⟨B a1, B a2, B a3, B a4, B a5⟩ ⟨B c1, B c2, B c3, B c4, B c5⟩ then "ok" else "fail")
+  | ["tofonly", "fpd", n] => (s, if fromProjDataIsTofOnly (I n) then "1" else "0")
+  -- (number of TOF positions and TOF mashing factor of the data; `set_up` looks at the mashing factor: `is_tof_data()`)
+  | ["setup", "atten", _ntof, mash] => (s, if fromAttenSetUp (I mash) then "ok" else "err")
   | ["setup", "comp", tof, mash, span] => (s, if componentsSetUp (B tof) (B mash) (B span) then "ok" else "err")
   | [op, id] =>
     if op == "triv1" || op == "triv2" then
-      match s.norms.get? id with
-      | some (.chained n1 n2) =>
+      match chain? id with
+      | some (n1, n2) =>
         match (if op == "triv1" then isFirstTrivial tolD n1 n2 else isSecondTrivial tolD n1 n2) with
         | some true => (s, "1")
         | some false => (s, "0")
@@ -277,8 +359,8 @@ def stepLine (s : St) (line : String) : St × String :=
   | ["chainctor", c1, c2] => (s, if chainCtorOk (Q c1) (Q c2) then "ok" else "err")
   | op :: id :: _route :: seg :: view :: ax :: tof :: tmin :: vals =>
     if op == "apply1" || op == "apply2" || op == "undo1" || op == "undo2" then
-      match s.norms.get? id with
-      | some (.chained n1 n2) =>
+      match chain? id with
+      | some (n1, n2) =>
         let m := if op == "apply1" || op == "undo1" then n1 else n2
         let (out, _) := vals.foldl (fun (acc : List String × Int) v =>
           let b : Bin := ⟨I seg, I view, I ax, acc.2, I tof⟩
